@@ -1,7 +1,7 @@
 (* C19 -- boolean checkers (the ok_ functions) and the rows evaluated by the harness:
    [model agrees with the observation; idempotent; alias_preserved; mode_enforced;
     untouched_preserved; dict_roundtrip; twin_same; slots_preserved; envelope_roundtrip;
-    sequence_independent] *)
+    sequence_independent; decode_independent_of_earlier_results] *)
 From Coq Require Import ZArith List String Bool.
 From RP Require Import Common.Eqb Descr.Types Descr.Model.
 Import ListNotations.
@@ -118,7 +118,7 @@ Record td_obs := mkTdObs {
   o_twx : option descr;                 (* the twin given to the constructor (None: no deprecated name used) *)
   o_tw  : option (perr + descr) }.      (* TaskDescription(from_dict=twin).verify() *)
 
-Definition pad_slots_env : list bool := [true; true; true].
+Definition pad_slots_env : list bool := [true; true; true; true].
 
 Definition c19_td_row (T : table) (x : descr) (o : td_obs) : list bool :=
   [ descr_eqb (construct T x) (o_c o)
@@ -218,7 +218,7 @@ Definition c19_slots_row (os : list sop) (ss : list slot) (obs : list (perr + li
     ok_placement ss obs; true;
     (* the conversions leave their input alone (measured after the outputs were mutated) and
        give the same result when applied to it again *)
-    eqb_list slot_eqb ss input_after && rerun_same ].
+    eqb_list slot_eqb ss input_after && rerun_same; true ].
 
 (* ---- envelopes ---- *)
 Definition kwargs_eqb : kwargs -> kwargs -> bool := eqb_list (eqb_prod String.eqb atom_eqb).
@@ -247,7 +247,7 @@ Definition c19_env_row (callable : bool) (args : list atom) (kw : option kwargs)
     | inr (_, a, k), inr (a', k', _) => eqb_list atom_eqb a a' && eqb_option kwargs_eqb k k'
     | _, _ => false
     end; true; true; true; true; true; true; true;
-    ok_envelope callable args kw o; true ].
+    ok_envelope callable args kw o; true; true ].
 
 (* ---- sequences of task creations from one stateful callable ----
    a function value is identified by the state it carries (an integer the callable reports
@@ -284,7 +284,7 @@ Definition c19_envseq_row (decor : bool) (f_dec : Z) (steps : list (step Z)) (ob
                          | _, _ => false
                          end) (transport_seq_id decor f_dec steps) obs;
     true; true; true; true; true; true; true;
-    forallb2 ok_envelope_step steps obs; true ].
+    forallb2 ok_envelope_step steps obs; true; true ].
 
 (* ---- serialize_obj on callables of every kind ----
    inputs measured by the harness on the callable itself: does dill.dumps(f) succeed (by
@@ -329,7 +329,7 @@ Definition c19_envk_row (val_ok ref_ok pk_ok callable : bool) (args : list atom)
        | _, _ => false
        end;
     true; true; true; true; true; true; true;
-    ok_serialize val_ok ref_ok pk_ok so && ok_envelope_k val_ok ref_ok pk_ok callable args kw o; true ].
+    ok_serialize val_ok ref_ok pk_ok so && ok_envelope_k val_ok ref_ok pk_ok callable args kw o; true; true ].
 
 (* ---- sequences of descriptions in one process ----
    observed: the final _data of every description of the sequence.  Each must be what the
@@ -348,7 +348,7 @@ Definition c19_dseq_row (pd : bool) (T : table) (ops : list dop) (obs : list (na
   let '(mk, vf) := dseq_funs pd T in
   [ forallb (fun o => eqb_option descr_eqb (slot_get (fst o) (drun mk vf ops [])) (Some (snd o))) obs;
     true; true; true; true; true; true; true; true;
-    ok_independent pd T ops obs ].
+    ok_independent pd T ops obs; true ].
 
 (* ---- fresh Slot() objects after earlier ones were mutated in place ----
    observed: every Slot() as it was right after its construction *)
@@ -357,4 +357,27 @@ Definition default_slot : slot := mkSlot true (Some 1) (RInts []) (RInts []) 0 0
 Definition c19_slotdefault_row (obs : list slot) : list bool :=
   [ forallb (fun s => slot_eqb s default_slot) obs;
     true; true; true; true; true; true; true; true;
-    forallb (fun s => slot_eqb s default_slot) obs ].
+    forallb (fun s => slot_eqb s default_slot) obs; true ].
+
+(* ---- the same transport string decoded several times, earlier results mutated in between ----
+   observed: what every get_func_attr call returned, looked at right when it returned (the
+   state the decoded callable carries, the argument list with its nested lists/dicts, the
+   keyword dict), and whether calling a deep copy of it gave the encode-time result *)
+Definition dres_eqb (a b : dres) : bool :=
+  (r_func a =? r_func b) && eqb_list val_eqb (r_args a) (r_args b)
+  && eqb_list (eqb_prod String.eqb val_eqb) (r_kw a) (r_kw b).
+
+(* decode is a function of the string alone: every decode gives the encoded original *)
+Definition ok_decodes (x : dres) (obs : list (dres * bool)) : bool :=
+  forallb (fun o => dres_eqb (fst o) x && snd o) obs.
+
+Definition c19_decseq_row (x : dres) (ops : list rop) (obs : list (dres * bool)) : list bool :=
+  [ eqb_list dres_eqb (snd (run_fresh x ops [])) (map fst obs);
+    true; true; true; true; true; true; true; true; true;
+    ok_decodes x obs ].
+
+(* the real worker: the same function string dispatched k times (MPI communicator injected
+   into kwargs['comm'] or args[0]); observed per run: did it return the expected value *)
+Definition c19_dispatch_row (obs : list bool) : list bool :=
+  [ forallb (fun b => b) obs; true; true; true; true; true; true; true; true; true;
+    forallb (fun b => b) obs ].
